@@ -2,7 +2,7 @@
 //! Runs inside the `pdbv_io` binary (syscall interposers feed `iotrack`).
 
 use super::{c02::*, *};
-use crate::{image::*, interp::*, iotrack, runner::*, spec::*};
+use crate::{gen::{mixed_cfg, mixed_items}, image::*, interp::*, iotrack, runner::*, spec::*};
 use proptest::prelude::*;
 use serde::{Deserialize, Serialize};
 use std::path::Path;
@@ -11,7 +11,7 @@ pub fn def() -> PropDef {
 	PropDef {
 		id: "C12",
 		level: "fault_enumeration",
-		rule: "sync_wal = sync_data = true, stepping mode, binary with interposed fdatasync/fsync/msync/ftruncate/unlink/mmap: a durability tracker keeps for every file its content as of its last successful sync (msync: its range). Generated histories over hash / rc / btree / multitree columns whose transactions touch several size tiers and index pages; crash instants = stop points (file-operation index inside every pipeline op, sampled per history) and op boundaries; per instant several POWER-LOSS IMAGES are generated: every memory-mapped table / index / ref-count file = durable copy with a generated subset (none / all / random) of its dirty 4 KiB pages replaced by the current page; every log file = durable bytes + a generated-length prefix of the bytes appended since its last sync. Oracles: (I2, at every event) when a log file is truncated to 0 or unlinked, every table / index (beyond its 16 KiB statistics area) / ref-count file equals its durable copy; (image) Db::open succeeds and observes a prefix p with synced <= p <= committed, and the recovered database keeps working. Non-trivial = an image in which >=1 dirty page was dropped AND >=1 kept, or the log tail was cut inside its unsynced part; distinct = distinct (history, instant, page subset) triples",
+		rule: "sync_wal = sync_data = true, stepping mode, binary with interposed fdatasync/fsync/msync/ftruncate/unlink/mmap: a durability tracker keeps for every file its content as of its last successful sync (msync: its range). Generated histories over hash / rc / btree / multitree columns whose transactions touch several size tiers and index pages; crash instants = stop points (file-operation index inside every pipeline op, sampled per history) and op boundaries; per instant several POWER-LOSS IMAGES are generated: every memory-mapped table / index / ref-count file = durable copy with a generated subset (none / all / random) of its dirty 4 KiB pages replaced by the current page; every log file = durable bytes + a generated-length prefix of the bytes appended since its last sync. Oracles: (I2, at every event) when a log file is truncated to 0 or unlinked, every table / index (beyond its 16 KiB statistics area) / ref-count file equals its durable copy; (image) Db::open succeeds and observes a prefix p with synced <= p <= committed, and the recovered database keeps working. Non-trivial = an image in which >=1 dirty page was dropped AND >=1 kept, or the log tail was cut inside its unsynced part; distinct = distinct (history, instant, page subset) triples. Sub-run power-threads: the same tracker with the REAL worker threads (always_flush, generated client pauses, msync slowed down by a generated delay = slow disk): at every log sync and every log truncate / unlink a power-loss image is built inside the interposed call, under the tracker lock, from the durable copies plus a generated subset of the dirty table pages; the durable copy of an msync range is taken at call time. Oracle without any knowledge of the schedule: every image recovers to a prefix of the commits started so far, and a transaction recovered from an EARLIER image (its log record was durable then) is recovered from every later image (durability is monotone). Non-trivial there = an image taken at a log reclamation while the client was still committing",
 		assumptions: &[
 			"file creation, unlink, rename and ftruncate sizes are durable at once (the library never syncs directories; the property speaks of pages and log bytes)",
 			"a 4 KiB page is either its durable or its current version (no torn pages); the metadata file is durable once written",
@@ -34,7 +34,7 @@ pub struct PowerCase {
 }
 
 /// mode: 0 none of the dirty pages, 1 all, 2.. random subset
-fn build_power_image(work: &Path, shadow: &Path, img: &Path, seed: u64, mode: u8) -> std::io::Result<(u64, u64, bool)> {
+pub fn build_power_image(work: &Path, shadow: &Path, img: &Path, seed: u64, mode: u8, log_durable_only: bool) -> std::io::Result<(u64, u64, bool)> {
 	use std::os::unix::fs::FileExt;
 	let _ = std::fs::remove_dir_all(img);
 	std::fs::create_dir_all(img)?;
@@ -55,6 +55,7 @@ fn build_power_image(work: &Path, shadow: &Path, img: &Path, seed: u64, mode: u8
 			let durable_len = std::fs::metadata(&sh).map(|m| m.len() as usize).unwrap_or(0).min(current.len());
 			let unsynced = current.len() - durable_len;
 			let keep = match mode {
+				_ if log_durable_only => durable_len,
 				0 => durable_len,
 				1 => current.len(),
 				_ => durable_len + (next() as usize) % (unsynced + 1),
@@ -127,7 +128,7 @@ pub fn check_power_point(sc: &Scenario, sp: &StopPoint, image_seeds: &[u64], dir
 			for (i, seed) in image_seeds.iter().enumerate() {
 				let img = dir.join(format!("pimg{i}"));
 				let mode = (seed % 5) as u8; // 0 none, 1 all, 2-4 random
-				let (kept, dropped, cut) = build_power_image(&work, &shadow, &img, *seed, mode).map_err(|e| Failure::new("harness-io", format!("power image: {e}")))?;
+				let (kept, dropped, cut) = build_power_image(&work, &shadow, &img, *seed, mode, false).map_err(|e| Failure::new("harness-io", format!("power image: {e}")))?;
 				images.push((img, *seed, (kept > 0 && dropped > 0) || cut));
 			}
 			Ok(())
@@ -276,13 +277,172 @@ fn power_case() -> impl Strategy<Value = PowerCase> {
 	})
 }
 
+/// Power loss while the REAL worker threads run (always_flush, so that records are applied and
+/// log files reclaimed while the client is still committing). Images are taken inside the
+/// interposed calls (see `iotrack::SnapCfg`); the oracle needs no knowledge of the schedule:
+/// every image must recover to a prefix of the commits started so far, and a transaction that
+/// an EARLIER image already recovered (so its log record was durable then) must be recovered by
+/// every later image too.
+#[derive(Clone, Debug, Serialize, Deserialize)]
+pub struct ThreadCase {
+	/// only Commit ops
+	pub sc: Scenario,
+	pub msync_delay_us: u16,
+	/// pause after commit i = pauses[i % len] microseconds
+	pub pauses_us: Vec<u16>,
+	pub stride: u8,
+	pub seed: u64,
+}
+
+fn thread_case() -> impl Strategy<Value = ThreadCase> {
+	(mixed_cfg(2, false), prop_oneof![1 => Just(0u16), 3 => 50u16..3000], proptest::collection::vec(prop_oneof![1 => Just(0u16), 3 => 100u16..1500, 2 => 1500u16..6000], 1..6), 1u8..3, any::<u64>()).prop_flat_map(
+		|(mut cfg, msync_delay_us, pauses_us, stride, seed)| {
+			cfg.always_flush = true;
+			cfg.sync_data = true;
+			cfg.sync_wal = true;
+			proptest::collection::vec(mixed_items(&cfg, 12, 20_000, 5, 0).prop_map(Op::Commit), 12..50).prop_map(move |ops| ThreadCase {
+				sc: Scenario { cfg: cfg.clone(), ops },
+				msync_delay_us,
+				pauses_us: pauses_us.clone(),
+				stride,
+				seed,
+			})
+		},
+	)
+}
+
+pub fn run_thread_case(case: &ThreadCase, dir: &Path) -> CaseResult {
+	use std::sync::atomic::Ordering;
+	let mut out = CaseOut::default();
+	if !iotrack_available() {
+		fail!("harness-io", "C12 must run inside the pdbv_io binary (syscall interposers missing)")
+	}
+	let sc = &case.sc;
+	let work = dir.join("work");
+	let shadow = dir.join("shadow");
+	let snaps_dir = dir.join("snaps");
+	for d in [&work, &shadow, &snaps_dir] {
+		let _ = std::fs::remove_dir_all(d);
+	}
+	std::fs::create_dir_all(&work).map_err(|e| Failure::new("harness-io", e.to_string()))?;
+	iotrack::start_threaded(&work, &shadow, iotrack::SnapCfg { dir: snaps_dir.clone(), max: 70, stride: case.stride as u64, seed: case.seed }, case.msync_delay_us as u64);
+	let r = (|| -> Res<ImageInfo> {
+		let mut it = Interp::new(&sc.cfg, &work, Interp::universe_of(sc));
+		it.background = true;
+		it.keep_prefix = true;
+		it.check_every_op = false;
+		it.open()?;
+		let mut i = 0usize;
+		for op in sc.ops.iter().filter(|o| matches!(o, Op::Commit(_))) {
+			iotrack::ISSUED.store(i as u64 + 1, Ordering::SeqCst);
+			it.step(op)?;
+			let p = case.pauses_us[i % case.pauses_us.len()];
+			if p > 0 {
+				std::thread::sleep(std::time::Duration::from_micros(p as u64));
+			}
+			i += 1;
+		}
+		// let the workers finish (bounded wait; not an oracle)
+		let t0 = std::time::Instant::now();
+		while t0.elapsed() < std::time::Duration::from_secs(10) {
+			let st = it.db().verif_pipeline_state();
+			if st.0 == 0 && st.2 <= 0 && st.3 == 0 && !st.4 {
+				break
+			}
+			std::thread::sleep(std::time::Duration::from_millis(2));
+		}
+		let info = ImageInfo {
+			faulted: true,
+			committed: it.committed,
+			synced: 0,
+			cleaned: 0,
+			cleaned_or_enacted: 0,
+			last_enacted_record: 0,
+			had_log: true,
+			cut_inside: false,
+			prefix: it.prefix.clone(),
+			addr: it.addr.clone(),
+			universe: it.universe.clone(),
+			labels: Default::default(),
+		};
+		it.close();
+		Ok(info)
+	})();
+	let tracker = iotrack::stop();
+	let info = r?;
+	let snaps = tracker.map(|t| t.snaps).unwrap_or_default();
+	let _ = std::fs::remove_dir_all(&work);
+	let _ = std::fs::remove_dir_all(&shadow);
+	let sp = StopPoint { op: 0, n: 0, cut: None, recover_n: vec![] };
+	let mut lower = 0usize;
+	let mut lower_from = String::new();
+	let mut reclaim_while_committing = 0u64;
+	for s in &snaps {
+		let mut info_i = info.clone();
+		info_i.committed = (s.issued as usize).min(info.committed);
+		let rec = recover_and_check(sc, &info_i, &sp, &s.dir, dir, lower).map_err(|f| {
+			Failure::new(
+				format!("power-loss-threaded:{}", f.sig),
+				format!(
+					"power-loss image #{} taken at '{}' ({} commits started, {} dirty pages kept / {} dropped): {}{}",
+					s.seq,
+					s.what,
+					s.issued,
+					s.kept_pages,
+					s.dropped_pages,
+					f.detail,
+					if f.sig == "recovered-state-too-old" { format!(" [transaction {lower} had been recovered from the earlier image taken at '{lower_from}', so its log record was durable]") } else { String::new() }
+				),
+			)
+		})?;
+		// the lowest prefix the observation is compatible with (ambiguity must not raise the bound)
+		let p = *rec.candidates.last().unwrap_or(&rec.prefix_index);
+		if p > lower {
+			lower = p;
+			lower_from = s.what.clone();
+		}
+		drop(rec);
+		out.sub_evals += 1;
+		if !s.what.starts_with("sync") && (s.issued as usize) < info.committed {
+			reclaim_while_committing += 1;
+		}
+		if s.dropped_pages > 0 {
+			out.count("images_with_dropped_pages", 1);
+		}
+		let _ = std::fs::remove_dir_all(&s.dir);
+		for d in 0..3 {
+			let _ = std::fs::remove_dir_all(dir.join(format!("rec{d}")));
+		}
+	}
+	let _ = std::fs::remove_dir_all(&snaps_dir);
+	out.count("threaded_images", snaps.len() as u64);
+	out.count("threaded_images_at_log_reclaim_while_committing", reclaim_while_committing);
+	out.sub_nontrivial = reclaim_while_committing;
+	out.nontrivial = reclaim_while_committing > 0;
+	if out.nontrivial {
+		out.label("log-reclaimed-while-client-commits");
+	}
+	out.label("real-worker-threads");
+	Ok(out)
+}
+
 fn run(ctx: &Ctx) {
 	let thorough = ctx.tier == "thorough";
 	let n = scaled(ctx, 56, 2_800);
-	ctx.run_prop_shrink("power", n, 40, power_case(), |c, dir| run_power_case(c, dir, if thorough { 120 } else { 30 }, 3));
+	if !ctx.run_prop_shrink("power", n, 40, power_case(), |c, dir| run_power_case(c, dir, if thorough { 120 } else { 30 }, 3)) {
+		return
+	}
+	let n = scaled(ctx, 96, 6_000);
+	ctx.run_prop_shrink("power-threads", n, 12, thread_case(), |c, dir| guarded(|| run_thread_case(c, dir)));
 }
 
 fn replay(ctx: &Ctx, path: &Path) -> Result<(), Failure> {
+	let v: serde_json::Value = serde_json::from_str(&std::fs::read_to_string(path).map_err(|e| Failure::new("bad-replay", e.to_string()))?).map_err(|e| Failure::new("bad-replay", e.to_string()))?;
+	if v.get("sub").and_then(|s| s.as_str()) == Some("power-threads") {
+		let (_sub, c): (String, ThreadCase) = load_replay(path).map_err(|e| Failure::new("bad-replay", e))?;
+		let dir = ctx.case_dir();
+		return guarded(|| run_thread_case(&c, &dir)).map(|_| ())
+	}
 	let (_sub, c): (String, PowerCase) = load_replay(path).map_err(|e| Failure::new("bad-replay", e))?;
 	let dir = ctx.case_dir();
 	guarded(|| run_power_case(&c, &dir, 120, 3)).map(|_| ())
